@@ -39,7 +39,9 @@ def header_bijection(chk: Check) -> None:
                 continue
             for combo in range(8):
                 gen, star, nd = bool(combo & 1), bool(combo & 2), bool(combo & 4)
-                for delim in (True, False):
+                for delim, flowmode in ((True, "explicit"), (False, "explicit"), (True, "inferred"), (False, "inferred")):
+                    if flowmode == "inferred" and combo not in (0, 5):
+                        continue
                     sizes = (11 + combo, 12 + phys, 13 + (lt % 7))
                     name = sstr(Atom("stream-name", nonempty=None))
 
@@ -47,8 +49,11 @@ def header_bijection(chk: Check) -> None:
                         k = K.Kit(it)
                         params = k.params(generalized_statements=gen, rdf_star=star, namespace_declarations=nd, delimited=delim, stream_name=name)
                         preset = k.preset(*sizes)
-                        flow_cls = "ManualFrameFlow"
-                        opts = k.options(params=params, lookup_preset=preset, flow=k.flow(flow_cls, logical_type=lt))
+                        if flowmode == "explicit":
+                            opts = k.options(params=params, lookup_preset=preset, flow=k.flow("ManualFrameFlow", logical_type=lt))
+                        else:
+                            # the flow is inferred by Stream from options.logical_type / params.delimited
+                            opts = k.options(params=params, lookup_preset=preset, logical_type=lt)
                         stream = k.stream(STREAM_FOR[phys], k.generic_encoder(preset), opts)
                         k.method(stream, "enroll")
                         frame = k.method(k.attr(stream, "flow"), "to_stream_frame")
@@ -57,7 +62,7 @@ def header_bijection(chk: Check) -> None:
                         popts, _frames = it.unpack_values(k.call(k.get(K.IO, "get_options_and_frames"), inp))
                         return row, popts
 
-                    inst = f"phys={phys} lt={lt} gen={gen} star={star} nd={nd} delimited={delim}"
+                    inst = f"phys={phys} lt={lt} gen={gen} star={star} nd={nd} delimited={delim} flow={flowmode}"
                     it, out = _one_path(chk, scenario, inst)
                     n += 1
                     if out[0] != "ok":
@@ -65,8 +70,10 @@ def header_bijection(chk: Check) -> None:
                         continue
                     row, popts = out[1]
                     o = row.fields.get("options")
+                    # an UNSPECIFIED logical type of a delimited stream is inferred as the flat type of the stream class
+                    lt_w = lt if not (flowmode == "inferred" and lt == 0 and delim) else (1 if phys == 1 else 2)
                     want_w = {
-                        "stream_name": name, "physical_type": phys, "logical_type": lt, "generalized_statements": gen, "rdf_star": star,
+                        "stream_name": name, "physical_type": phys, "logical_type": lt_w, "generalized_statements": gen, "rdf_star": star,
                         "max_name_table_size": sizes[0], "max_prefix_table_size": sizes[1], "max_datatype_table_size": sizes[2],
                         "version": spec.VERSION_NAMESPACES if nd else spec.VERSION_PLAIN,
                     }
@@ -85,7 +92,7 @@ def header_bijection(chk: Check) -> None:
                         "version": k2.attr(popts, "params.version"), "namespace_declarations": k2.attr(popts, "params.namespace_declarations"), "delimited": k2.attr(popts, "params.delimited"),
                     }
                     want_r = {
-                        "physical_type": phys, "logical_type": lt, "max_names": sizes[0], "max_prefixes": sizes[1], "max_datatypes": sizes[2], "stream_name": name,
+                        "physical_type": phys, "logical_type": lt_w, "max_names": sizes[0], "max_prefixes": sizes[1], "max_datatypes": sizes[2], "stream_name": name,
                         "generalized_statements": gen, "rdf_star": star, "version": want_w["version"], "namespace_declarations": nd, "delimited": delim,
                     }
                     diff = {f: got_r[f] for f in want_r if got_r[f] != want_r[f]}
